@@ -58,15 +58,15 @@ impl Copy for WatchOption {}
 impl Target {
 //@fn src/domain.rs Target::metadata ret=r
 //@contract
-    ensures *r == self.meta(),
+    ensures /*[C08.launch-wiring]*/ *r == self.meta(),
 //@end
 //@fn src/domain.rs Target::id ret=r
 //@contract
-    ensures *r == self.meta().id,
+    ensures /*[C08.launch-wiring,C01.relay]*/ *r == self.meta().id,
 //@end
 //@fn src/domain.rs Target::input ret=r
 //@contract
-    ensures r is Some <==> !(self is Aggregate),
+    ensures /*[C06.watch-inputs]*/ r is Some <==> !(self is Aggregate),
 //@end
     pub open spec fn meta(&self) -> TargetMetadata {
         match self {
